@@ -49,7 +49,8 @@ Theorem server_read_exact w toks fd kk w' ys x ph :
   | RErr outs e =>
       CInv (sc_conn y) PLine /\ c_win (sc_conn y) = [] /\
       unsent (sc_conn y) = unsent c ++ flat_map serialize (conts_of outs ++ [bad_request_response e]) /\
-      ys = []
+      ys = [] /\
+      c_parsed (sc_conn y) = [] /\ c_files (sc_conn y) = [] /\ c_pmax (sc_conn y) = c_pmax c
   | ROutOfFuel => False
   end.
 Proof.
@@ -105,9 +106,15 @@ Proof.
     exists y'. split; [cbn [set_client set_conn w_conns]; eapply alookup_update_same; eauto|].
     rewrite E1, E2, E3. cbn [map].
     split; [reflexivity|]. split; [reflexivity|]. split; [rewrite Ld; apply Tos|].
-    pose proof (pop_all_write_side (S (length (c_parsed (reset_parser c1)))) (reset_parser c1) []) as (HA & HB & PS & _).
+    pose proof (pop_all_write_side (S (length (c_parsed (reset_parser c1)))) (reset_parser c1) []) as (HA & HB & PS & HPm).
+    pose proof (pop_all_all (S (length (c_parsed (reset_parser c1)))) (reset_parser c1) [] ltac:(lia)) as [_ Q2].
+    pose proof (pop_all_files (S (length (c_parsed (reset_parser c1)))) (reset_parser c1) []) as QF.
     set (c2 := fst (pop_all (S (length (c_parsed (reset_parser c1)))) (reset_parser c1) [])) in *.
-    split; [|split; [|split; [|reflexivity]]].
+    split; [|split; [|split; [|split; [reflexivity|]]]].
+    4: { change (c_parsed (enqueue_response c2 (bad_request_response e))) with (c_parsed c2).
+         change (c_files (enqueue_response c2 (bad_request_response e))) with (c_files c2).
+         change (c_pmax (enqueue_response c2 (bad_request_response e))) with (c_pmax c2).
+         split; [exact Q2|]. split; [rewrite QF; reflexivity|]. rewrite HPm. change (c_pmax (reset_parser c1)) with (c_pmax c1). apply (post_pmax _ _ _ P). }
     + eapply CInv_parser_same; [eapply CInv_parser_same; [apply CInv_reset; assumption|exact PS]|]. unfold parser_same. cbn. auto 6.
     + change (c_win (enqueue_response c2 (bad_request_response e))) with (c_win c2).
       destruct PS as (_ & -> & _). reflexivity.
